@@ -8,7 +8,7 @@ RULE = ("fault enumeration: for each run configuration (nonparametric / gaussian
         "regularisation) EVERY fit position of the run (median, lower, upper of every estimand and level) x {SolverError, UserWarning} is injected "
         "at the first attempt of that fit, and once more one layer down at every per-quantile solve inside the solver (a failure in the middle of a fit); the run must complete and every returned table must equal the fault-free run (1e-6 relative: the LP is "
         "the same up to a positive scaling of the objective); the retry call's captured keyword arguments are compared with the first attempt's. "
-        "distinct = (configuration, fit position, failure kind); non-trivial = the fault was actually raised and a retry happened")
+        "plus one regularised fit on which the real solver reports an inaccurate solution (no injection). distinct = (configuration, fit position, failure kind); non-trivial = the fault was actually raised and a retry happened")
 
 
 def config_case(seed, kw):
@@ -68,7 +68,9 @@ def worker(job):
             state["raised"] = True
             if kind == "SolverError":
                 raise cvxpy.error.SolverError("injected by the C20 check")
-            raise UserWarning("Solution may be inaccurate (injected by the C20 check)")
+            # the inaccuracy warning, issued the way the installed cvxpy issues it: an exception only if the library's filters say so
+            run_impl.emit_inaccuracy_warning()
+            state["warning_not_raised"] = True
 
     def inner_fault(j, in_retry, tau):
         # a failure in the middle of a fit: raised at the j-th per-quantile solve of the first attempts
@@ -79,16 +81,75 @@ def worker(job):
             state["raised"] = True
             if kind == "SolverError":
                 raise cvxpy.error.SolverError("injected by the C20 check (per-quantile solve)")
-            raise UserWarning("Solution may be inaccurate (injected by the C20 check, per-quantile solve)")
+            run_impl.emit_inaccuracy_warning()
+            state["warning_not_raised"] = True
 
     with run_impl.SolverCapture(fault=fault, keep_arrays=False, inner_fault=inner_fault):
         h = aggfam.harvest(case)
     p = case["params"]
     res = {"job": [seed, kw, target, kind, layer], "ok": h["ok"], "exc": h.get("exc"), "n_first": state["first_attempts"], "n_inner": state.get("n_inner", 0), "raised": state["raised"],
-           "retries": state["retries"], "firsts": state.get("firsts", []), "tables": tables_of(h) if h["ok"] else None,
+           "retries": state["retries"], "warning_not_raised": state.get("warning_not_raised", False), "firsts": state.get("firsts", []), "tables": tables_of(h) if h["ok"] else None,
            "cfg": {"pi": p["pi_method"], "est": p["estimands"], "alphas": p["prediction_intervals"], "features": p["features"],
                    "lambda": p["model_parameters"].get("lambda_", 0), "fe": p["fixed_effects"]}}
     return res
+
+
+def genuine_inaccurate_job(_):
+    """A real regularised fit on which the installed conic solver reports an inaccurate solution (found by search, regenerated here
+    from its seed): ConformalElectionModel.fit_model must come back for a second attempt without weight normalisation."""
+    import warnings
+
+    import numpy as np
+    import pandas as pd
+
+    from harness import run_impl
+
+    run_impl._imp()
+    import elexsolver.QuantileRegressionSolver as qmod
+    from elexmodel.models.NonparametricElectionModel import NonparametricElectionModel
+
+    rng = np.random.default_rng(0)
+    case = None
+    for trial in range(175):
+        n = rng.integers(8, 40)
+        p = rng.integers(1, 4)
+        x = np.column_stack([np.ones(n)] + [rng.normal(size=n) * 10.0 ** rng.integers(-3, 6) for _ in range(p)])
+        y = rng.normal(size=n) * 10.0 ** rng.integers(-4, 5)
+        w = 10.0 ** rng.uniform(-14, 3, size=n)
+        lam = 10.0 ** rng.uniform(-8, 6)
+        if trial == 174:
+            case = (x, y, w, lam)
+    x, y, w, lam = case
+    out = {"n": int(x.shape[0]), "p": int(x.shape[1] - 1), "lambda_": float(lam)}
+    # precondition: solved directly, the solver does report the inaccuracy
+    with warnings.catch_warnings(record=True) as rec:
+        warnings.simplefilter("always")
+        try:
+            qmod.QuantileRegressionSolver().fit(x, y, taus=0.5, weights=w, lambda_=lam, fit_intercept=True)
+        except Exception as e:  # noqa: BLE001
+            out["precondition"] = f"direct solve raised {type(e).__name__}"
+            return out
+    out["precondition"] = any("inaccurate" in str(r.message) for r in rec)
+    if out["precondition"] is not True:
+        return out
+    calls = []
+    orig = qmod.QuantileRegressionSolver.fit
+
+    def spy(slf, *a, **k):
+        calls.append(bool(k.get("normalize_weights", True)))
+        return orig(slf, *a, **k)
+
+    qmod.QuantileRegressionSolver.fit = spy
+    try:
+        m = NonparametricElectionModel({"lambda_": lam})
+        try:
+            m.fit_model(qmod.QuantileRegressionSolver(), pd.DataFrame(x), pd.Series(y), 0.5, pd.Series(w), True)
+        except Exception as e:  # noqa: BLE001
+            out["exc"] = (type(e).__name__, str(e)[:150])
+    finally:
+        qmod.QuantileRegressionSolver.fit = orig
+    out["attempts"] = calls
+    return out
 
 
 CONFIGS = [
@@ -146,7 +207,9 @@ def run(chk):
                           {"kind": "run-fails", "exc": o["exc"][0]})
             continue
         if len(o["retries"]) != 1:
-            chk.violation(f"{kind} at fit {k}: expected exactly one retry without weight normalisation, saw {len(o['retries'])}", replay, {"kind": "retry-count"})
+            extra = " (the solver's 'Solution may be inaccurate' warning, issued as the installed cvxpy issues it, was not turned into an error)" if o.get("warning_not_raised") else ""
+            chk.violation(f"{kind} at fit {k}: expected exactly one retry without weight normalisation, saw {len(o['retries'])}{extra}", replay,
+                          {"kind": "retry-count", "warning_ignored": bool(o.get("warning_not_raised"))})
             continue
         if layer == "solve":
             diff = compare_tables(b["tables"], o["tables"])
@@ -169,6 +232,15 @@ def run(chk):
             if diff2:
                 chk.violation(f"{kind} at fit {k} of {o['cfg']}: the tables differ from the run in which only fit {k} is solved without weight normalisation: {diff2}",
                               replay, {"kind": "tables-differ-beyond-retry"})
+    # a genuinely inaccurate solve (no injection at all)
+    g = core.pmap(genuine_inaccurate_job, [0])[0]
+    chk.count({"genuine_inaccurate": True, "precondition": str(g.get("precondition"))}, nontrivial=g.get("precondition") is True,
+              sample={"stream": "genuinely inaccurate solve", "rows": g.get("n"), "features": g.get("p"), "lambda_": g.get("lambda_"), "solver_reports_inaccuracy": g.get("precondition"),
+                      "fit_attempts_normalize_weights": g.get("attempts")})
+    if g.get("precondition") is True and g.get("attempts") != [True, False]:
+        chk.violation(f"a regularised fit ({g['n']} rows, {g['p']} features, lambda_={g['lambda_']:.5g}) on which the solver reports an inaccurate solution is not retried: "
+                      f"fit attempts (normalize_weights) = {g.get('attempts')}, outcome {g.get('exc') or 'accepted silently'}", {"kind": "c20-genuine"},
+                      {"kind": "retry-count", "warning_ignored": True})
     if not ok and not [v for v in chk.violations if not v["no_input"]]:
         chk.violation("proof obligations / generated facts of C20 no longer check", {"theorem_file": "coq/Properties/C20.v", "log": rep.get("log_tail", "")[-1500:],
                                                                                    "translator": chk.notes.get("translator_problems")}, {"kind": "proof-broken"}, no_input=True)
@@ -177,6 +249,10 @@ def run(chk):
 
 def replay(chk, payload):
     r = payload["replay"]
+    if r.get("kind") == "c20-genuine":
+        g = genuine_inaccurate_job(0)
+        print(json.dumps(g, indent=1, default=str))
+        return 0 if g.get("attempts") == [True, False] else 1
     o = worker((r["seed"], r["kw"], r["target"], r["fault"], r.get("layer", "fit")))
     print(json.dumps({"ok": o["ok"], "exc": o["exc"], "raised": o["raised"], "retries": o["retries"]}, indent=1, default=str))
     return 0 if o["ok"] else 1
